@@ -484,7 +484,7 @@ func repVec(rep string, v []float64) mat.Vector {
 }
 
 // dstDense kinds.
-var dstKinds = []string{"empty", "sized", "sizedview", "alias"}
+var dstKinds = []string{"empty", "sized", "sizedview", "alias", "aliasT"}
 
 // recoverMsg runs f and returns the recovered panic value as a string ("" if none).
 func recoverMsg(f func()) (msg string) {
